@@ -28,6 +28,8 @@ pub const KINDS: &[&str] = &[
     "annotate",
     "annotate-permuted",
     "reuse-permuted",
+    // `let x = e` -> `rec let x = e` (x is fresh, so the meaning is the same)
+    "let-to-rec",
 ];
 
 fn children(e: &Expr) -> Vec<&Expr> {
@@ -271,6 +273,7 @@ fn applicable(kind: &str, n: &Expr) -> bool {
             _ => false,
         },
         "wrap-lambda" | "apply-nonfun" | "replace-subexpr" => true,
+        "let-to-rec" => matches!(n, Expr::Let(Pat::Var(_), _, _)),
         "annotate" => matches!(n, Expr::Record { fields, base: None, .. } if !fields.is_empty()),
         "annotate-permuted" | "reuse-permuted" => match n {
             Expr::Record { fields, base: None, .. } => {
@@ -472,6 +475,7 @@ pub fn mutate(e: &Expr, rng: &mut Rng) -> Option<(Expr, &'static str)> {
                             Expr::App(b(Expr::App(f, a)), rest)
                         }
                     }
+                    ("let-to-rec", Expr::Let(Pat::Var(x), e1, e2)) => Expr::LetRec(vec![(x, vec![], *e1)], e2),
                     ("annotate", Expr::Record { fields, base, layout }) => {
                         let names: Vec<String> = fields.iter().map(|f| f.0.clone()).collect();
                         annotated(rng, &names, Expr::Record { fields, base, layout })
